@@ -733,6 +733,13 @@ impl RenetClient {
             channel.verif_seed_next_message_id(next_message_id);
         }
     }
+
+    /// Sets the id the next sliced message of every unreliable send channel will carry.
+    pub fn verif_seed_unreliable_sliced_id(&mut self, sliced_message_id: u64) {
+        for channel in self.send_unreliable_channels.values_mut() {
+            channel.verif_seed_sliced_message_id(sliced_message_id);
+        }
+    }
 }
 
 #[cfg(test)]
